@@ -12,31 +12,48 @@ import io
 import itertools
 
 from .. import defs, impl, refimpl
+from .. import s7_c18 as s7
 from ..common import A, Case, Result, mkrng, parse_sexp, run_driver, sx
 from ..structprops import rand_bytes
 
 
-def field_specs(rnd, cs, n):
-    """field list as (name, type object factory description)"""
+SCALARS = ["uint8", "uint16", "uint32", "uint64", "int24", "char", "int8", "uint48"]
+
+
+def field_specs(rnd, cs, n, offsets=False):
+    """field list as (name, type description, bits, explicit offset or None)"""
     out = []
     for i in range(n):
         r = rnd.random()
         if r < 0.5:
-            out.append((f"f{i}", ("sc", rnd.choice(["uint8", "uint16", "uint32", "uint64", "int24", "char", "int8", "uint48"])), None))
+            out.append([f"f{i}", ("sc", rnd.choice(SCALARS)), None, None])
         elif r < 0.62:
-            out.append((f"f{i}", ("arr", ("sc", rnd.choice(["uint8", "uint16", "char", "uint32"])), rnd.randint(0, 3)), None))
+            out.append([f"f{i}", ("arr", ("sc", rnd.choice(["uint8", "uint16", "char", "uint32"])), rnd.randint(0, 3)), None, None])
         elif r < 0.74:
             st = rnd.choice(["uint8", "uint16", "uint32"])
-            out.append((f"f{i}", ("sc", st), rnd.randint(1, 4)))
+            out.append([f"f{i}", ("sc", st), rnd.randint(1, 4), None])
         elif r < 0.82:
-            out.append((f"f{i}", ("enum", "E8"), None))
+            out.append([f"f{i}", ("enum", "E8"), None, None])
         elif r < 0.9:
-            out.append((f"f{i}", ("ptr", ("sc", "uint8")), None))
+            out.append([f"f{i}", ("ptr", ("sc", "uint8")), None, None])
         elif r < 0.95:
-            out.append((f"f{i}", ("dyn", rnd.choice(["uint8", "char", "uint16"])), None))
+            out.append([f"f{i}", ("dyn", rnd.choice(["uint8", "char", "uint16"])), None, None])
         else:
-            out.append((f"f{i}", ("nested",), None))
-    return out
+            out.append([f"f{i}", ("nested",), None, None])
+    if offsets:
+        # explicit offsets (add_field(..., offset=) / Field(..., offset=)): mostly at or behind the end of what precedes the field
+        # (a gap), sometimes inside it (an overlay); the sizes are only an estimate that steers the generator
+        end = 0
+        for f in out:
+            try:
+                sz = len(mk_type(cs, f[1]))
+            except TypeError:
+                sz = 2
+            if rnd.random() < (0.12 if f[2] else 0.35):
+                f[3] = rnd.randint(0, end) if rnd.random() < 0.1 else end + rnd.randint(0, 5)
+                end = f[3]
+            end += sz
+    return [tuple(f) for f in out]
 
 
 def mk_type(cs, spec):
@@ -81,13 +98,64 @@ def describe(T):
     return (T.size, T.alignment, T.dynamic, [(f._name, f.offset, f.bits) for f in T.__fields__], T.__compiled__)
 
 
+def observe(cs, T, inputs, prefix, compiled, flips):
+    """everything the check compares between the two classes except the layout and the reader signature"""
+    out = [("parse at 0 #%d" % i, s7.summ(impl.parse(T, d))) for i, d in enumerate(inputs)]
+    out += s7.observations(cs, T, inputs[0], prefix, compiled, positions=(1, 3))
+    try:
+        dflt = T().dumps()
+    except Exception as e:  # noqa: BLE001
+        dflt = type(e).__name__
+    return out, dflt, s7.behaviour(T, inputs[0], flips)
+
+
+def compare(viol, res, cd, sig, want, got, requested, inputs, prefix):
+    """want / got = (describe, reader signature, observations, default dump, behaviour) of the one-shot class and the class under
+    test; -> True if they agree"""
+    ok = True
+    if got[0] != want[0]:
+        viol(f"incremental structure {got[0]} differs from the one-shot structure {want[0]}", cd, sig)
+        return False
+    why = s7.reader_diff(want[1], got[1], requested)
+    if why:
+        viol("the reader of the incremental structure is not the reader of the one-shot structure: " + why, cd, sig)
+        ok = False
+    for (lw, w), (lg, g) in zip(want[2], got[2]):
+        if not s7.same_summ(w, g):
+            viol(f"incremental structure read ({lg}) gives {str(g)[:220]}, one-shot {str(w)[:220]}",
+                 dict(cd, data=[d.hex() for d in inputs], prefix=prefix.hex(), read=lg), sig)
+            ok = False
+            break
+    if got[3] != want[3]:
+        viol(f"default instance of the incremental structure dumps {got[3]!r}, one-shot {want[3]!r}", cd, sig)
+        ok = False
+    if got[4] != want[4]:
+        d = next(((a, b) for a, b in zip(got[4], want[4]) if a != b), (got[4], want[4]))
+        viol(f"instances of the incremental structure behave differently (==, hash, bool, repr, positional construction, write into a "
+             f"stream at position 1/3): {str(d[0])[:200]}, one-shot {str(d[1])[:200]}", dict(cd, data=inputs[0].hex()), sig)
+        ok = False
+    return ok
+
+
+SELFREF_TEXTS = [
+    ("struct node { uint8 v; node *next; uint16 w; };\nstruct list { node head; node *tail; };", ["node", "list"]),
+    ("struct node { uint8 tag; uint32 value; node *next; };", ["node"]),
+    ("struct tree { uint16 k; tree *kids[2]; uint8 n; uint64 big; char name[]; uint32 after; tree *up; };", ["tree"]),
+    ("struct a { uint8 x : 3; uint8 y : 5; uint32 z; a *self; };\nstruct b { uint8 h; a first; a more[2]; b *nextb; uint16 t; };", ["a", "b"]),
+]
+
+
 def run(env) -> Result:
     res = Result()
     res.rule = ("seeded field lists of 0..6 fields (scalars incl. odd widths, arrays, bit-field runs, enum, pointer, null-terminated array, nested "
-                "struct) x {packed, aligned} x {interpreted, compiled}; every split into consecutive batches (thorough; sampled in quick), each "
-                "batch added either field-by-field with a commit after each or under start_update(); compared with the one-shot structure: "
-                "size/alignment/dynamic/offsets, compiled flag, parse (value, sizes, consumed), dumps, default instance. Plus self-referential "
-                "definitions through the parser. distinct = (field list, config, split, mode); non-trivial = >= 2 batches")
+                "struct; optionally explicit offsets) x {packed, aligned} x {interpreted, compiled}; every split into consecutive batches "
+                "(thorough; sampled in quick), each batch added field-by-field with a commit after each, under start_update(), mixed, or the "
+                "parser's way (extend __fields__, commit); compared with the one-shot structure: size/alignment/dynamic/offsets, the reader "
+                "itself (compiled flag, interpreted loop or generated source/plan modulo token numbering), parse (value, sizes, consumed) at "
+                "stream positions 0/1/3, inside a packed outer structure at offset 1/3 and as T[2] element, dumps, writes at position 1/3, "
+                "default instance, ==/hash/bool/repr/positional construction. Plus definitions through the parser (pre-registered named "
+                "struct, self pointers) against the same field list declared in one piece. distinct = (field list, config, split, mode); "
+                "non-trivial = >= 2 batches")
     dc = impl.dc()
     from dissect.cstruct import compiler
     from dissect.cstruct.types.structure import Field
@@ -95,7 +163,6 @@ def run(env) -> Result:
     rnd = mkrng(env["seed"], "c18")
     tier = env["tier"]
     findings = {f["id"] for f in env["findings"]}
-    lines, metas = [], []
 
     def viol(what, data, sig=None):
         if sig and sig in findings:
@@ -105,6 +172,7 @@ def run(env) -> Result:
 
     for _ in range(60 if tier == "quick" else 1500):
         n = rnd.randint(0, 6)
+        with_offsets = rnd.random() < 0.4
         for align, compiled in itertools.product((False, True), (False, True)):
             if tier == "quick" and rnd.random() < 0.4:
                 continue
@@ -116,75 +184,115 @@ def run(env) -> Result:
                 return cs
 
             cs0 = fresh()
-            specs = field_specs(rnd, cs0, n)
+            specs = field_specs(rnd, cs0, n, offsets=with_offsets)
+            has_off = any(s[3] is not None for s in specs)
             cd0 = {"fields": [str(s) for s in specs], "align": align, "compiled": compiled, "endian": endian}
             f23 = align and any(s[2] and s[1][1] in ("int24", "uint24", "uint48") for s in specs if s[1][0] == "sc")
             sig = "F23" if f23 else None
             try:
-                one = cs0._make_struct("T", [Field(nm, mk_type(cs0, sp), bits=b) for nm, sp, b in specs], align=align)
+                one = cs0._make_struct("T", [Field(nm, mk_type(cs0, sp), bits=b, offset=o) for nm, sp, b, o in specs], align=align)
                 if compiled:
                     one = compiler.compile(one)
             except Exception as e:  # noqa: BLE001
                 res.feat("one-shot-rejected:" + type(e).__name__)
                 continue
-            want = describe(one)
             size = one.size if one.size is not None else 40
             inputs = [rand_bytes(rnd, size + 6) for _ in range(2)]
-            want_parse = []
-            for d in inputs:
-                r = impl.parse(one, d)
-                want_parse.append((r[0], impl.canon(r[1]) if r[0] == "ok" else r[1], r[2] if r[0] == "ok" else None,
-                                   (r[1].dumps() if r[0] == "ok" and not impl.contains_nan(impl.canon(r[1])) else None),
-                                   sorted((k, v) for k, v in r[1]._sizes.items() if v) if r[0] == "ok" else None))
-            try:
-                want_default = one().dumps()
-            except Exception as e:  # noqa: BLE001
-                want_default = type(e).__name__
+            prefix = bytes(rnd.randrange(1, 256) for _ in range(8))
+            flips = sorted({size - 1, *[rnd.randrange(size) for _ in range(2)]} - {-1}) if size else []
+            want = (describe(one), s7.reader_sig(one), *observe(cs0, one, inputs, prefix, compiled, flips))
+            if has_off:
+                res.feat("field-list-with-explicit-offsets")
+            if compiled and not one.__compiled__:
+                res.feat("one-shot-not-compilable")
             for batches in splits(n, rnd, tier == "thorough" and n <= 5):
-                for mode in ("each", "update", "mixed"):
-                    if tier == "quick" and mode == "mixed" and rnd.random() < 0.5:
+                for mode in ("each", "update", "mixed", "extend"):
+                    if tier == "quick" and mode in ("mixed", "extend") and rnd.random() < 0.5:
                         continue
+                    touch = rnd.random() < 0.3
                     cs = fresh()
-                    cd = dict(cd0, batches=batches, mode=mode)
+                    cd = dict(cd0, batches=batches, mode=mode, read_between_commits=touch)
                     res.count((str(specs), align, compiled, str(batches), mode), len(batches) >= 2)
                     res.feat(f"batches:{len(batches)}")
+                    res.feat(f"mode:{mode}")
                     try:
                         st = cs._make_struct("T", [], align=align)
                         if compiled:
                             st = compiler.compile(st)
-                        layouts = []
                         for bi, batch in enumerate(batches):
                             use_update = mode == "update" or (mode == "mixed" and bi % 2 == 0)
-                            if use_update:
+                            if mode == "extend":
+                                # what the parser does with a pre-registered structure
+                                st.__fields__.extend(Field(specs[i][0], mk_type(cs, specs[i][1]), bits=specs[i][2], offset=specs[i][3]) for i in batch)
+                                st.commit()
+                            elif use_update:
                                 with st.start_update():
                                     for i in batch:
-                                        nm, sp, b = specs[i]
-                                        st.add_field(nm, mk_type(cs, sp), bits=b)
+                                        nm, sp, b, o = specs[i]
+                                        st.add_field(nm, mk_type(cs, sp), bits=b, offset=o)
                             else:
                                 for i in batch:
-                                    nm, sp, b = specs[i]
-                                    st.add_field(nm, mk_type(cs, sp), bits=b)
-                            layouts.append(describe(st))
+                                    nm, sp, b, o = specs[i]
+                                    st.add_field(nm, mk_type(cs, sp), bits=b, offset=o)
+                            if touch:
+                                # use the intermediate class: nothing it caches may leak into the final one
+                                impl.parse(st, inputs[0])
+                                impl.parse(st, prefix[:1] + inputs[0], 1)
                     except Exception as e:  # noqa: BLE001
                         viol(f"incremental definition raises {type(e).__name__}: {e} where the one-shot definition is accepted", cd, sig)
                         continue
-                    got = describe(st)
-                    if got != want:
-                        viol(f"incremental structure {got} differs from the one-shot structure {want}", cd, sig)
-                        continue
-                    for d, wp in zip(inputs, want_parse):
-                        r = impl.parse(st, d)
-                        gp = (r[0], impl.canon(r[1]) if r[0] == "ok" else r[1], r[2] if r[0] == "ok" else None,
-                              (r[1].dumps() if r[0] == "ok" and not impl.contains_nan(impl.canon(r[1])) else None),
-                              sorted((k, v) for k, v in r[1]._sizes.items() if v) if r[0] == "ok" else None)
-                        if gp[0] != wp[0] or (gp[0] == "ok" and (not impl.same_val(wp[1], gp[1]) or gp[2:] != wp[2:])) or (gp[0] == "err" and gp[1] != wp[1]):
-                            viol(f"incremental structure parses/dumps {str(gp)[:200]}, one-shot {str(wp)[:200]}", dict(cd, data=d.hex()), sig)
-                    try:
-                        gd = st().dumps()
-                    except Exception as e:  # noqa: BLE001
-                        gd = type(e).__name__
-                    if gd != want_default:
-                        viol(f"default instance of the incremental structure dumps {gd!r}, one-shot {want_default!r}", cd, sig)
+                    got = (describe(st), s7.reader_sig(st), *observe(cs, st, inputs, prefix, compiled, flips))
+                    res.feat("probe:reader-signature")
+                    res.feat("probe:reads-away-from-0", len(got[2]) - len(inputs))
+                    res.feat("probe:instance-behaviour")
+                    compare(viol, res, cd, sig, want, got, compiled, inputs, prefix)
+
+    # definitions through the parser: a named top-level struct is pre-registered empty (compiled if requested), then extended and
+    # committed; the same field list declared in one piece must give the same class
+    def parser_probe(text, names, endian, align, compiled, ptr, kind):
+        cs = dc.cstruct(endian=endian, pointer=ptr)
+        cd = {"definition": text, "endian": endian, "align": align, "compiled": compiled, "pointer": ptr}
+        try:
+            cs.load(text, compiled=compiled, align=align)
+        except Exception as e:  # noqa: BLE001
+            res.feat(f"parser-path:{kind}:rejected:{type(e).__name__}")
+            return
+        for name in names:
+            T = getattr(cs, name)
+            res.count(("parser", text, endian, align, compiled, ptr, name))
+            res.feat(f"parser-path:{kind}")
+            try:
+                R = s7.rebuild(cs, T, compiled)
+            except Exception as e:  # noqa: BLE001
+                viol(f"struct {name}: the field list the parser committed is rejected when declared in one piece: {type(e).__name__}: {e}", cd)
+                continue
+            size = R.size if R.size is not None else 40
+            inputs = [rand_bytes(rnd, size + 6) for _ in range(2)]
+            prefix = bytes(rnd.randrange(1, 256) for _ in range(8))
+            flips = sorted({size - 1, rnd.randrange(size)}) if size else []
+            want = (describe(R), s7.reader_sig(R), *observe(cs, R, inputs, prefix, compiled, flips))
+            got = (describe(T), s7.reader_sig(T), *observe(cs, T, inputs, prefix, compiled, flips))
+            compare(viol, res, dict(cd, struct=name), None, want, got, compiled, inputs, prefix)
+
+    for (text, names), endian, align, compiled, ptr in itertools.product(SELFREF_TEXTS, "<>", (False, True), (False, True), ("uint32", "uint64", "uint16")):
+        if tier == "quick" and rnd.random() < 0.5:
+            continue
+        parser_probe(text, names, endian, align, compiled, ptr, "self-reference")
+    for _ in range(150 if tier == "quick" else 2500):
+        g = defs.Gen(rnd, max_depth=rnd.choice([0, 1, 1, 2]), max_fields=5)
+        tree = g.struct()
+        body = [defs.render_field(f, None) for f in tree[1]]
+        selfp = rnd.random() < 0.5
+        if selfp:
+            for j in range(rnd.randint(1, 2)):
+                body.insert(rnd.randint(0, len(body)), rnd.choice([f"T *self{j};", f"T *self{j}[2];", f"T **self{j};"]))
+        text = defs.PREAMBLE + "#define K2 2\n#define K0 0\nstruct T {\n  " + "\n  ".join(body) + "\n};\n"
+        for align, compiled in itertools.product((False, True), (False, True)):
+            if tier == "quick" and rnd.random() < 0.6:
+                continue
+            parser_probe(text, ["T"], rnd.choice("<>"), align, compiled, rnd.choice(["uint64", "uint32", "uint16"]),
+                         "generated+self-pointer" if selfp else "generated")
+
     # self-referential definitions through the parser
     for endian, align, compiled, ptr in itertools.product("<>", (False, True), (False, True), ("uint32", "uint64", "uint16")):
         cs = dc.cstruct(endian=endian, pointer=ptr)
